@@ -37,6 +37,7 @@ import itertools
 import marshal
 import os
 import re
+import shlex
 import shutil
 import stat
 import subprocess
@@ -229,9 +230,11 @@ def access_paths(content):
     E = lambda r: evil_src(r)   # noqa: E731
     A = {}
 
-    def add(name, ops, tok, real, link, cwd="w", third=("w",), note=""):
+    def add(name, ops, tok, real, link, cwd="w", third=("w",), note="", script=None):
         A[name] = {"ops": [("d", "w"), ("d", "home")] + ops, "tok": tok, "cwd": cwd, "real": real, "link": link,
-                   "third": [t for t in third if t not in (real, link)], "note": note}
+                   "third": [t for t in third if t not in (real, link)], "note": note,
+                   "words": ["python3"] + (list(tok) if isinstance(tok, (list, tuple)) else [tok]),
+                   "script": script if script is not None else tok if isinstance(tok, str) else tok[-1]}
 
     add("plain", [("f", "w/x.py", S)], "x.py", "w", "w")
     add("dot", [("f", "w/x.py", S)], "./x.py", "w", "w")
@@ -280,6 +283,28 @@ def access_paths(content):
     add("fifo", [("fifo", "w/x.py")], "x.py", "w", "w")
     add("missing", [], "x.py", "w", "w")
     add("file-as-dir", [("f", "w/x.py", S), ("f", "w/y.py", S)], "y.py/../x.py", "w", "w", note="python: ENOTDIR; Path.resolve pops lexically")
+    # the file itself: size limit (100000 is the last accepted size), encodings, names
+    pad = lambda n: S + b"#" * (n - len(S) - 1) + b"\n"   # noqa: E731
+    add("size-100000", [("f", "w/x.py", pad(100000))], "x.py", "w", "w")
+    add("size-100001", [("f", "w/x.py", pad(100001))], "x.py", "w", "w")
+    add("size-100001-behind-link", [("f", "lib/x.py", pad(100001)), ("l", "w/x.py", "../lib/x.py")], "x.py", "lib", "w")
+    add("empty-file", [("f", "w/x.py", b"")], "x.py", "w", "w")
+    add("nul-byte", [("f", "w/x.py", S + b"\x00")], "x.py", "w", "w")
+    add("utf8-bom", [("f", "w/x.py", b"\xef\xbb\xbf" + S)], "x.py", "w", "w")
+    add("crlf", [("f", "w/x.py", S.replace(b"\n", b"\r\n"))], "x.py", "w", "w")
+    add("latin1-no-cookie", [("f", "w/x.py", S + b"# \xe9\n")], "x.py", "w", "w")
+    add("suffix-upper", [("f", "w/x.PY", S)], "x.PY", "w", "w")
+    add("suffix-only", [("f", "w/.py", S)], ".py", "w", "w")
+    add("suffix-double", [("f", "w/x.tar.py", S)], "x.tar.py", "w", "w")
+    add("suffix-behind", [("f", "w/x.py.txt", S)], "x.py.txt", "w", "w")
+    add("no-suffix", [("f", "w/x", S)], "x", "w", "w")
+    add("space-in-name", [("f", "w/my script.py", S)], "my script.py", "w", "w")
+    add("unicode-name", [("f", "w/\u00e9t\u00e9.py", S)], "\u00e9t\u00e9.py", "w", "w")
+    add("dash-name-after-dashdash", [("f", "w/-x.py", S)], ["--", "-x.py"], "w", "w")
+    add("dash-name-dot-slash", [("f", "w/-x.py", S)], "./-x.py", "w", "w")
+    add("option-then-script", [("f", "w/x.py", S)], ["-B", "x.py"], "w", "w")
+    add("script-then-args", [("f", "w/x.py", S), ("f", "w/sub/x.py", E("arg-file"))], ["x.py", "sub/x.py", "-m", "calendar"], "w", "w", third=("w/sub",), script="x.py")
+    add("flink-with-option-arg", [("f", "lib/x.py", S), ("l", "w/x.py", "../lib/x.py")], ["-W", "ignore", "x.py"], "lib", "w")
     return A
 
 
@@ -320,7 +345,7 @@ def gen_access(tier, safe_modules):
     for m_fixed in (["json"] if tier == "quick" else ["json", "textwrap" if "textwrap" in mods else mods[0]]):
         A = access_paths(safe_src((m_fixed,)))
         for an, a in A.items():
-            cases.append(Case("access", {"access": an, "nb": "none", "module": m_fixed}, list(a["ops"]), "python3 {T}", a["cwd"], ["python3", a["tok"]]))
+            cases.append(Case("access", {"access": an, "nb": "none", "module": m_fixed, "script": a["script"]}, list(a["ops"]), "python3 {T}", a["cwd"], list(a["words"])))
             places = [("real", a["real"]), ("link", a["link"])] + [(f"third{i}", t) for i, t in enumerate(a["third"])]
             seen_dirs = set()
             for pname, pdir in places:
@@ -332,7 +357,7 @@ def gen_access(tier, safe_modules):
                     role = f"nb.{pl}.{kind}.{m_fixed}"
                     ops = list(a["ops"]) + nb_ops(pdir, m_fixed, kind, role)
                     cases.append(Case("access", {"access": an, "nb": kind, "place": pl, "module": m_fixed}, ops, "python3 {T}", a["cwd"],
-                                      ["python3", a["tok"]]))
+                                      list(a["words"])))
     # every safe module once through a rotating (access, place, kind): pairwise module x the rest
     A = None
     names = None
@@ -347,7 +372,7 @@ def gen_access(tier, safe_modules):
             pl = "real" if where[1] == a["real"] else where[0]
             role = f"nb.{pl}.{kind}.{m}"
             cases.append(Case("access", {"access": an, "nb": kind, "place": pl, "module": m}, list(a["ops"]) + nb_ops(where[1], m, kind, role),
-                              "python3 {T}", a["cwd"], ["python3", a["tok"]]))
+                              "python3 {T}", a["cwd"], list(a["words"])))
     return cases
 
 
@@ -630,11 +655,12 @@ def signature(case, cls):
 
 # ---------------------------------------------------------------- the run
 def finalize(case, root):
+    """`{T}` in the command = the words after python3, quoted for bash where they need it"""
     case.root = root
-    tok = case.tokens[1] if case.tokens and len(case.tokens) > 1 and "{T}" in case.cmd else ""
-    case.cmd = case.cmd.replace("{T}", tok).replace("{R}", root)
     if case.tokens:
         case.tokens = [t.replace("{R}", root) for t in case.tokens]
+    args = " ".join(shlex.quote(t) for t in case.tokens[1:]) if case.tokens and "{T}" in case.cmd else ""
+    case.cmd = case.cmd.replace("{T}", args).replace("{R}", root)
 
 
 def decide(AN, cfg, cmd, cwd):
@@ -945,7 +971,7 @@ def _run_env(out, H, AN, cfg, scratch_root, tier, rng, replay, model, dump, deco
             if mv is not None and mv != impl:
                 disagree("PyEnv.classify_fs <-> python.classify", c, tokens=c.tokens, model=mv, impl=impl)
             if c.family == "paths" or (c.family == "access" and c.dims.get("nb") == "none"):
-                tok = c.tokens[1]
+                tok = c.tokens[1] if c.family == "paths" else c.dims["script"].replace("{R}", c.root)
                 joined = tok if os.path.isabs(tok) else cwd + "/" + tok
                 # (b) Path.resolve
                 try:
